@@ -260,8 +260,13 @@ theorem self_tail_call_uses_own_template (isFn : Nat → Bool) (c : Ctx) (h : St
     (hn : (c.tail && h == c.funcname) = true) :
     compile isFn c (.call (.sym h) args) = (do
       let gs ← get
-      let code ← compileCallArgs isFn { c with tail := false } ((c.known.lookup h).bind (fun t => gs.fns[t]?)) 0 args
-      pure (code ++ [.prepareCall h args.length] ++ List.replicate (c.scopes + 1) .removeScope ++ [.goto 0], c.tail)) :=
+      -- (after fix C04-04: only when the number of arguments fits the template; else an ordinary call)
+      if (match (c.known.lookup h).bind (fun t => gs.fns[t]?) with
+          | some fo => if fo.varargs then decide (fo.nargs ≤ args.length) else args.length == fo.nargs
+          | none => true) then do
+        let code ← compileCallArgs isFn { c with tail := false } ((c.known.lookup h).bind (fun t => gs.fns[t]?)) 0 args
+        pure (code ++ [.prepareCall h args.length] ++ List.replicate (c.scopes + 1) .removeScope ++ [.goto 0], c.tail)
+      else pure ([.callExpr (.sym h) args], c.tail)) :=
   compile_self_tail_call isFn c h args hn
 
 theorem self_tail_call_lazy_position (isFn : Nat → Bool) (c : Ctx) (f : FnObj) (i : Nat) (e : Expr) (es : List Expr)
